@@ -377,6 +377,8 @@ def jobs(tier):
     out.append(job("C13", "gro-trajectory[3 frames]", "harness.c03", "h_gro", dict(natom=2, nframes=3, vel=True, triclinic=False, time=True),
                    max_validate=2))
     out.append(job("C13", "extxyz-trajectory[3 frames]", "harness.c03", "h_xyz", dict(nframes=3, ext=True), max_validate=2))
+    out.append(job("C13", "extxyz-trajectory[identical titles, user columns]", "harness.c03", "h_xyz",
+                   dict(nframes=3, ext=True, same_title=True), max_validate=2))
     for order in ((0, 1), (1, 0), (0, 1, 0)):
         out.append(job("C13", f"extxyz-mixed-columns[{order}]", M, "h_extxyz_mixed", dict(order=list(order)), max_validate=2))
     out.append(job("C13", "dump-load-many[twin]", M, "h_dump_load_many", dict(fmt="xyz", nframes=2, twin=True),
